@@ -2,6 +2,7 @@ SPECIFICATION TraceSpec
 CONSTANTS MaxOps = 1000000 RawOps = 1000000
   Shapes = {}
   Datas = {}
+  RawDatas = {}
   Ks = {}
   OpenArgs = {}
   SeekArgs = {}
